@@ -5,6 +5,7 @@ From Coq Require Import PeanoNat.
 From MPD Require Import Bytes Tables Show ParserModel BuilderModel Grammar ConnModel CommandModel MpdTokenizer
   LoopModel ServerModel CallerModel DriverConn DriverLoop ParserProofs ConnProofs RoundTripProofs
   LoopSpec LoopSpecProofs LoopRefine.
+From MPD Require CommandProofs.
 Open Scope N_scope.
 
 (* ---------- the builder: what is left is a suffix of what was given ---------- *)
@@ -73,6 +74,103 @@ Proof.
   auto 10.
 Qed.
 
+Lemma dec_aresp_of_list r : decoded (aresp_of_list r) = r.
+Proof.
+  destruct r as [fs e]. unfold decoded, aresp_of_list. cbn. f_equal.
+  induction fs as [|f fs IH]; cbn; [reflexivity|]. rewrite IH. destruct f; reflexivity.
+Qed.
+
+Lemma no_lf_forall l : no_lf l = true -> Forall (fun x => x <> LF) l.
+Proof.
+  unfold no_lf. intros H. apply Forall_forall. intros x Hin. rewrite forallb_forall in H.
+  specialize (H x Hin). apply Bool.negb_true_iff in H. intros ->. rewrite N.eqb_refl in H. discriminate.
+Qed.
+
+Lemma begin_end_words : command_list_begin = begin_word ++ [LF] /\ command_list_end = end_word ++ [LF] /\
+  no_lf begin_word = true /\ no_lf end_word = true /\ beq begin_word end_word = false.
+Proof. repeat split; vm_compute; reflexivity. Qed.
+
+Lemma lines_list_bytes ls : Forall (fun l => no_lf l = true) ls ->
+  lines (list_bytes ls) = begin_word :: ls ++ [end_word].
+Proof.
+  intros H. destruct begin_end_words as [EB [EE [NB [NE _]]]]. unfold lines, list_bytes. rewrite EB, EE.
+  rewrite CommandProofs.split_framed.
+  - change (begin_word :: ls ++ [end_word; []]) with ((begin_word :: ls) ++ [end_word; []]).
+    rewrite CommandProofs.removelast_app_cons. reflexivity.
+  - apply no_lf_forall. exact NB.
+  - apply no_lf_forall. exact NE.
+  - eapply Forall_impl; [|exact H]. intros l Hl. apply no_lf_forall. exact Hl.
+Qed.
+
+Lemma list_lines_bytes ls : Forall (fun l => no_lf l = true) ls -> list_lines (list_bytes ls) = ls.
+Proof. intros H. unfold list_lines. rewrite (lines_list_bytes ls H). cbn [tl]. apply removelast_last. Qed.
+
+Lemma is_list_bytes ls : is_list (list_bytes ls) = true.
+Proof. unfold is_list, list_bytes. apply is_prefix_app. eexists. reflexivity. Qed.
+
+Lemma list_line_parts l : list_line l = true -> no_lf l = true /\ beq l end_word = false.
+Proof.
+  unfold list_line. intros H. apply Bool.andb_true_iff in H. destruct H as [A B].
+  apply Bool.negb_true_iff in B. auto.
+Qed.
+
+Lemma list_good_parts ls : list_good cf ls = true ->
+  (2 <= length ls)%nat /\ Forall (fun l => list_line l = true) ls /\
+  wf_resp (aresp_of_list (reply_of_list cf ls)) = true /\ exec_list cf 0 ls = enc (aresp_of_list (reply_of_list cf ls)).
+Proof.
+  unfold list_good. intros H.
+  apply Bool.andb_true_iff in H. destruct H as [H HW].
+  apply Bool.andb_true_iff in HW. destruct HW as [HW HB]. apply beq_eq in HB.
+  apply Bool.andb_true_iff in H. destruct H as [HL HF].
+  apply Nat.leb_le in HL. rewrite forallb_forall in HF.
+  split; [exact HL|]. split; [apply Forall_forall; exact HF|]. auto.
+Qed.
+
+Lemma list_good_no_lf ls : list_good cf ls = true -> Forall (fun l => no_lf l = true) ls.
+Proof.
+  intros H. destruct (list_good_parts ls H) as [_ [F _]]. eapply Forall_impl; [|exact F].
+  intros l Hl. apply (list_line_parts l Hl).
+Qed.
+
+(* the two forms of a request of the fragment *)
+Lemma req_good_cases u : req_good cf u = true ->
+  (is_list u = true /\ exists ls, u = list_bytes ls /\ list_lines u = ls /\ list_good cf ls = true) \/
+  (is_list u = false /\ exists l, u = l ++ [LF] /\ removelast u = l /\ echo_line cf l = true).
+Proof.
+  unfold req_good. destruct (is_list u) eqn:EL; intros H.
+  - left. split; [reflexivity|]. apply Bool.andb_true_iff in H. destruct H as [G B]. apply beq_eq in B.
+    exists (list_lines u). auto.
+  - right. split; [reflexivity|]. destruct u as [|c u']; [discriminate|].
+    apply Bool.andb_true_iff in H. destruct H as [B E]. apply beq_eq in B.
+    exists (removelast (c :: u')). auto.
+Qed.
+
+Lemma req_good_list ls : list_good cf ls = true -> req_good cf (list_bytes ls) = true.
+Proof.
+  intros G. unfold req_good. rewrite is_list_bytes, (list_lines_bytes ls (list_good_no_lf ls G)), G, beq_refl. reflexivity.
+Qed.
+
+Lemma is_list_single l : no_lf l = true -> beq l begin_word = false -> is_list (l ++ [LF]) = false.
+Proof.
+  intros NL NB. destruct (is_list (l ++ [LF])) eqn:E; [|reflexivity]. exfalso.
+  unfold is_list in E. apply is_prefix_app in E. destruct E as [r E].
+  destruct begin_end_words as [EB _]. rewrite EB, <- app_assoc in E. cbn [app] in E.
+  (* l ++ [LF] = begin_word ++ LF :: r: the first LF is at the end of l on the left and after begin_word on the right *)
+  assert (L : lines (l ++ [LF]) = [l]) by (apply CommandProofs.lines_send; apply no_lf_forall; exact NL).
+  rewrite E in L. unfold lines in L.
+  rewrite (CommandProofs.split_on_app LF begin_word r) in L by (apply no_lf_forall; vm_compute; reflexivity).
+  destruct (split_on LF r) as [|h t] eqn:ES.
+  - destruct r; cbn in ES; [discriminate|destruct (n =? LF); [discriminate|destruct (split_on LF r); discriminate]].
+  - cbn [removelast] in L. destruct t; inversion L; subst; rewrite beq_refl in NB; discriminate.
+Qed.
+
+Lemma req_good_single l : echo_line cf l = true -> req_good cf (l ++ [LF]) = true.
+Proof.
+  intros E. destruct (echo_line_parts l E) as [NL [_ [_ [NB _]]]].
+  unfold req_good. rewrite (is_list_single l NL NB). rewrite removelast_last, beq_refl, E.
+  destruct l; reflexivity.
+Qed.
+
 Lemma parse_s r rest : wf_s cf r ->
   bparse_all Initial (enc_s cf r ++ rest) = (Initial, rest, Complete (resp_of (echo_reply cf) r)).
 Proof.
@@ -86,13 +184,12 @@ Proof.
       unfold wf_frame; cbn. rewrite !Bool.andb_true_r. apply forallb_forall. intros kv Hin.
       apply in_map_iff in Hin. destruct Hin as [n [<- Hn]]. apply wf_changed.
       cbn in W. rewrite Forall_forall in W. apply W. exact Hn.
-  - cbn [wf_s] in W. destruct (echo_line_parts _ W) as [_ [_ [_ [_ [WF E]]]]].
-    set (l := removelast u) in *. unfold echo_reply. fold l.
-    assert (RL : reply_of_line cf l = decoded (aresp_of (reply_of_line cf l))) by (symmetry; apply dec_aresp_of).
-    assert (P0 : bparse_all Initial (srv_out cf l) = (Initial, [], Complete (decoded (aresp_of (reply_of_line cf l))))).
-    { rewrite E at 1. rewrite <- (app_nil_r (enc _)). apply roundtrip_one. exact WF. }
-    assert (RD : reply_of_line cf l = decoded (aresp_of (reply_of_line cf l))) by exact RL.
-    rewrite E. rewrite roundtrip_one by exact WF. rewrite <- RD. reflexivity.
+  - cbn [wf_s] in W. unfold echo_reply.
+    destruct (req_good_cases u W) as [[EL [ls [EU [ELL G]]]]|[EL [l [EU [ERL E0]]]]]; rewrite EL.
+    + rewrite ELL. destruct (list_good_parts ls G) as [_ [_ [WF E]]].
+      rewrite E. rewrite roundtrip_one by exact WF. rewrite dec_aresp_of_list. reflexivity.
+    + rewrite ERL. destruct (echo_line_parts l E0) as [_ [_ [_ [_ [WF E]]]]].
+      rewrite E. rewrite roundtrip_one by exact WF. rewrite dec_aresp_of. reflexivity.
 Qed.
 
 End Replies.
@@ -150,7 +247,8 @@ Ltac xsimp :=
        x_handle x_elapsed x_evend x_cf x_srv x_c2s x_s2c x_wp x_wh x_evq x_evh
        set_pt set_conn set_qc set_h set_flags set_w set_ev set_net
        a_pt a_queue a_c2s a_idle a_pending a_s2c a_violated a_issued a_sent a_reported a_delivered a_replies
-       g_w g_conn g_res g_ev g_panic add_res add_ev add_w add_conn set_panic] in *.
+       g_w g_conn g_res g_ev g_panic add_res add_ev add_w add_conn set_panic
+       s_idle s_pending s_list s_violated s_reported] in *.
 
 Lemma events_idle ns : events_of (idle_frame ns) = map OEvent ns.
 Proof. unfold events_of. rewrite changed_idle_frame. reflexivity. Qed.
@@ -183,6 +281,7 @@ Section Sim.
 Variable cf : sconf.
 Notation Rel := (LoopRefine.Rel cf).
 Notation S2C := (LoopRefine.S2C cf).
+Notation C2S := (LoopRefine.C2S cf).
 Notation wf_s := (LoopRefine.wf_s cf).
 Notation enc_s := (LoopRefine.enc_s cf).
 Notation echo_reply := (LoopRefine.echo_reply cf).
@@ -225,8 +324,12 @@ Proof.
   destruct (route_all _ g outs) as [x3 g3]. destruct (on_exit x3 g3) as [x4 g4]. reflexivity.
 Qed.
 
-Definition gext (g g' : seg) (nr : list (N * response)) (ne : list bytes) : Prop :=
-  g_res g' = g_res g ++ map res_text nr /\ g_ev g' = g_ev g ++ map ev_text ne /\ g_panic g' = g_panic g.
+(* [nq]: the requests answered in this stretch, [ne]: the events delivered *)
+Definition gext (g g' : seg) (nq : list request) (ne : list bytes) : Prop :=
+  g_res g' = g_res g ++ map (res_text cf) nq /\ g_ev g' = g_ev g ++ map ev_text ne /\ g_panic g' = g_panic g.
+
+Notation R := (LoopSpecProofs.R echo_reply).
+Notation Inv2 := (LoopSpecProofs.Inv2 echo_reply).
 
 Definition rank (p : point) : nat :=
   match p with PWindow => 3 | PIdle => 2 | PCancel _ => 1 | _ => 0 end.
@@ -276,13 +379,34 @@ Proof. destruct s; cbn; intros -> ->; cbn. unfold client; cbn. rewrite app_nil_r
 
 Ltac destr_rel HR :=
   destruct HR as [Hh Hclient Hfailed Hspawned Heof Hrerr Hwfail Hhandle Hwp Hwh Hevq Hcf Hpt Hqueue Hcallers Hreqs
-                  Hc2s Hwrites Hidle Hpending Hpwf Hlist Hviol Hreported Hs2cwf Hs2c].
+                  Hc2s Hwrites Hidle Hpending Hpwf Hviol Hreported Hs2cwf Hs2c].
 
 Lemma concat_snoc (l : list bytes) (u : bytes) : concat (l ++ [u]) = concat l ++ u.
 Proof. rewrite concat_app. cbn. rewrite app_nil_r. reflexivity. Qed.
 
 Lemma forall_snoc {A} (P : A -> Prop) l u : Forall P l -> P u -> Forall P (l ++ [u]).
 Proof. intros H1 H2. apply Forall_app. split; [exact H1|constructor; [exact H2|constructor]]. Qed.
+
+Lemma c2s_write x s x' s' w : C2S x s -> s_list (x_srv x') = s_list (x_srv x) -> x_c2s x' = x_c2s x ++ w ->
+  a_c2s s' = a_c2s s ++ [w] -> a_idle s' = a_idle s -> C2S x' s'.
+Proof.
+  unfold C2S. intros H EL EX EA EI. rewrite EL. destruct (s_list (x_srv x)) as [acc|].
+  - destruct H as [rest [todo [A [B [C G]]]]]. exists (rest ++ [w]), todo.
+    rewrite EA, A, EX, B, EI, concat_snoc. split; [reflexivity|]. split; [rewrite <- !app_assoc; reflexivity|auto].
+  - rewrite EX, H, EA, concat_snoc. reflexivity.
+Qed.
+
+Lemma c2s_same x s x' s' : C2S x s -> s_list (x_srv x') = s_list (x_srv x) -> x_c2s x' = x_c2s x ->
+  a_c2s s' = a_c2s s -> a_idle s' = a_idle s -> C2S x' s'.
+Proof.
+  unfold C2S. intros H EL EX EA EI. rewrite EL, EX, EA, EI. exact H.
+Qed.
+
+Ltac c2s_w HC := eapply c2s_write; [exact HC|reflexivity|reflexivity|reflexivity|reflexivity].
+Ltac c2s_s HC := eapply c2s_same; [exact HC|reflexivity|reflexivity|reflexivity|reflexivity].
+
+Lemma last_snoc {A} (l : list A) x d : last (l ++ [x]) d = x.
+Proof. apply last_last. Qed.
 
 Lemma sim_take_idle x s g q rest st' buf' :
   Rel x s -> a_pt s = PIdle -> a_queue s = q :: rest ->
@@ -298,9 +422,9 @@ Proof.
   constructor; xsimp; try assumption.
   - reflexivity.
   - reflexivity.
-  - rewrite Hcallers, EP, EQ. reflexivity.
+  - unfold outstanding in *. xsimp. rewrite EP, EQ in Hcallers. exact Hcallers.
   - rewrite EP, EQ in Hreqs. exact Hreqs.
-  - rewrite concat_snoc, Hc2s. reflexivity.
+  - c2s_w Hc2s.
   - apply forall_snoc; [assumption|right; left; reflexivity].
 Qed.
 
@@ -318,8 +442,8 @@ Proof.
   constructor; xsimp; try assumption.
   - reflexivity.
   - reflexivity.
-  - rewrite Hcallers, EP, EQ. reflexivity.
-  - rewrite concat_snoc, Hc2s. reflexivity.
+  - unfold outstanding in *. xsimp. rewrite EP, EQ in Hcallers. rewrite last_snoc. exact Hcallers.
+  - c2s_w Hc2s.
   - apply forall_snoc; [assumption|right; right; exact Hq].
 Qed.
 
@@ -336,9 +460,9 @@ Proof.
   rewrite (a_timeout s EP).
   constructor; xsimp; try assumption.
   - reflexivity.
-  - rewrite Hcallers, EP. reflexivity.
+  - unfold outstanding in *. xsimp. rewrite EP in Hcallers. exact Hcallers.
   - rewrite EP in Hreqs. exact Hreqs.
-  - rewrite concat_snoc, Hc2s. reflexivity.
+  - c2s_w Hc2s.
   - apply forall_snoc; [assumption|left; reflexivity].
 Qed.
 
@@ -356,9 +480,9 @@ Proof.
   rewrite (a_recv_idle s ns rs' EP ES). rewrite ES in Hs2cwf.
   constructor; xsimp; try assumption.
   - reflexivity.
-  - rewrite Hcallers, EP. reflexivity.
+  - unfold outstanding in *. xsimp. rewrite EP in Hcallers. exact Hcallers.
   - rewrite EP in Hreqs. exact Hreqs.
-  - rewrite concat_snoc, Hc2s. reflexivity.
+  - c2s_w Hc2s.
   - apply forall_snoc; [assumption|left; reflexivity].
   - exact (Forall_inv_tail Hs2cwf).
 Qed.
@@ -378,31 +502,74 @@ Proof.
   rewrite EP in Hreqs. cbn [held app] in Hreqs. pose proof (Forall_inv Hreqs) as Hq. cbn beta in Hq.
   constructor; xsimp; try assumption.
   - reflexivity.
-  - rewrite Hcallers, EP. reflexivity.
+  - unfold outstanding in *. xsimp. rewrite EP in Hcallers. rewrite last_snoc. exact Hcallers.
   - exact (Forall_inv_tail Hreqs).
-  - rewrite concat_snoc, Hc2s. reflexivity.
+  - c2s_w Hc2s.
   - apply forall_snoc; [assumption|right; right; exact Hq].
   - exact (Forall_inv_tail Hs2cwf).
 Qed.
 
-Lemma sim_recv_wait x s g id r1 rs' st' buf' :
-  Rel x s -> a_pt s = PWait id -> a_s2c s = r1 :: rs' ->
-  try_receive x = (Some (RResp (resp_of echo_reply r1)), set_conn x buf' st' []) -> S2C st' buf' [] (x_s2c x) rs' ->
-  exists x4 g4, xstep x g = Some (x4, g4) /\ Rel x4 (astep s LRecv) /\ gext g g4 [(id, resp_of echo_reply r1)] [].
+(* a reply of the fragment to a single line has one frame and no error, or no frame and an error: raw_command and
+   raw_command_list hand over the same thing *)
+Lemma single_reply_shape l : echo_line cf l = true ->
+  split_list (reply_of_line cf l) = split_single (reply_of_line cf l).
 Proof.
-  intros HR EP ES TR SC. pose proof HR as HR'. destr_rel HR'.
+  intros E. destruct (echo_line_parts cf l E) as [_ [_ [_ [_ [WF _]]]]].
+  set (r := reply_of_line cf l) in *.
+  unfold wf_resp in WF. apply Bool.andb_true_iff in WF. destruct WF as [WF _].
+  apply Bool.andb_true_iff in WF. destruct WF as [SHP _].
+  unfold wf_shape, aresp_of in SHP. cbn [a_form a_error a_frames] in SHP. rewrite map_length in SHP.
+  unfold split_list, split_single, single_frame. destruct (r_error r) as [e|].
+  - apply Nat.eqb_eq in SHP. destruct (r_frames r); [reflexivity|discriminate].
+  - apply Nat.eqb_eq in SHP. destruct (r_frames r) as [|f [|f2 fs]]; try discriminate. reflexivity.
+Qed.
+
+(* whatever the kind the caller was created with, it is handed the reply as [res_of] says *)
+Lemma crel_result c q k : crel c q -> snd c = KRaw k -> req_good cf (q_bytes q) = true ->
+  result_of_reply k (RepResp (echo_reply (q_bytes q))) = res_of (q_bytes q) (echo_reply (q_bytes q)).
+Proof.
+  intros [_ CK] EK G. unfold res_of. cbn [result_of_reply].
+  destruct CK as [[E1 E2]|E1]; rewrite EK in E1; injection E1 as ->.
+  - rewrite E2. reflexivity.
+  - destruct (is_list (q_bytes q)) eqn:EL; [reflexivity|].
+    destruct (req_good_cases cf _ G) as [[EL' _]|[_ [l [EU [ERL E0]]]]]; [congruence|].
+    unfold LoopRefine.echo_reply. rewrite EL, ERL. apply single_reply_shape. exact E0.
+Qed.
+
+Lemma sim_recv_wait x s g id r1 rs' st' buf' :
+  Rel x s -> Inv s -> Inv2 s -> a_pt s = PWait id -> a_s2c s = r1 :: rs' ->
+  try_receive x = (Some (RResp (resp_of echo_reply r1)), set_conn x buf' st' []) -> S2C st' buf' [] (x_s2c x) rs' ->
+  exists x4 g4 q, xstep x g = Some (x4, g4) /\ Rel x4 (astep s LRecv) /\ gext g g4 [q] [] /\
+    (id, resp_of echo_reply r1) = R q /\ a_sent s = removelast (a_sent s) ++ [q].
+Proof.
+  intros HR HI H2 EP ES TR SC. pose proof HR as HR'. destr_rel HR'.
+  (* the request in flight *)
+  unfold LoopSpecProofs.Inv2 in H2. rewrite EP in H2. destruct H2 as [pre [q [ESENT [EID [_ EINF]]]]].
+  assert (ER1 : r1 = SReply (q_bytes q) /\ rs' = []).
+  { destruct HI as [SH _]. unfold shape in SH. rewrite EP in SH.
+    destruct SH as [q' [_ [_ [_ [_ [[_ E]|[[_ E]|[_ E]]]]]]]]; rewrite E in ES; try discriminate.
+    inversion ES; subst. unfold LoopSpecProofs.inflight in EINF. rewrite E in EINF. rewrite EINF. auto. }
+  destruct ER1 as [-> ->].
+  assert (WQ : req_good cf (q_bytes q) = true) by (rewrite ES in Hs2cwf; exact (Forall_inv Hs2cwf)).
+  unfold outstanding in Hcallers. rewrite EP, ESENT, last_snoc in Hcallers. cbn [app] in Hcallers.
+  inversion Hcallers as [|c q0 cs qs CR CRS EC EQS]. subst q0 qs.
+  destruct c as [cid ck]. pose proof CR as [CID CK]. cbn [fst snd] in CID, CK.
+  assert (EK : exists k, ck = KRaw k) by (destruct CK as [[E _]|E]; eauto). destruct EK as [k ->].
   unfold xstep, client_event. rewrite Hpt, EP. cbn [wants_recv wants_cmd]. rewrite TR. xsimp.
   rewrite Hwfail, Hpt, EP. cbn [cstep]. cbn [route_all route]. xsimp.
-  rewrite Hcallers, EP. cbn [callers_for find_caller]. rewrite N.eqb_refl. cbn [caller_result]. xsimp.
-  rewrite Hcallers, EP. cbn [callers_for remove_caller]. rewrite N.eqb_refl.
+  rewrite <- EC. cbn [find_caller]. rewrite CID, <- EID, N.eqb_refl. cbn [caller_result]. xsimp.
+  rewrite <- EC. cbn [remove_caller]. rewrite CID, <- EID, N.eqb_refl.
   unfold on_exit. xsimp.
-  eexists. eexists. split; [reflexivity|]. split; [|unfold gext; cbn; rewrite !app_nil_r; auto].
-  rewrite (a_recv_wait s id r1 rs' EP ES). rewrite ES in Hs2cwf.
-  constructor; xsimp; try assumption.
-  - reflexivity.
-  - reflexivity.
-  - rewrite EP in Hreqs. exact Hreqs.
-  - exact (Forall_inv_tail Hs2cwf).
+  eexists. eexists. exists q. split; [reflexivity|]. split; [|split; [|split]].
+  - rewrite (a_recv_wait s id (SReply (q_bytes q)) [] EP ES). rewrite ES in Hs2cwf.
+    constructor; xsimp; try assumption; try reflexivity.
+    + rewrite EP in Hreqs. exact Hreqs.
+    + exact (Forall_inv_tail Hs2cwf).
+  - unfold gext, add_res. cbn [g_res g_ev g_panic map]. rewrite !app_nil_r. split; [|auto].
+    f_equal. unfold res_text. rewrite EID. f_equal. f_equal.
+    cbn [resp_of]. rewrite (crel_result (cid, KRaw k) q k CR eq_refl WQ). reflexivity.
+  - unfold LoopSpecProofs.R. rewrite EID. reflexivity.
+  - rewrite ESENT, removelast_last. reflexivity.
 Qed.
 
 Lemma xstep_none_recv_only x s g st' buf' :
@@ -429,9 +596,14 @@ Proof.
   rewrite (r_queue _ _ _ HR), EQ. unfold chan_closed. rewrite (r_handle _ _ _ HR). cbn [negb andb]. rewrite ET. reflexivity.
 Qed.
 
+(* the requests already answered: everything written except the one in flight *)
+Definition ansreqs (s : asys) : list request :=
+  match a_pt s with PWait _ => removelast (a_sent s) | _ => a_sent s end.
+
 Definition step_post (s : asys) (g : seg) (x4 : xsys) (g4 : seg) : Prop :=
   exists l nr ne, client_label l /\ Rel x4 (astep s l) /\ gext g g4 nr ne /\
-    a_replies (astep s l) = a_replies s ++ nr /\ a_delivered (astep s l) = a_delivered s ++ ne /\
+    a_replies (astep s l) = a_replies s ++ map R nr /\ a_delivered (astep s l) = a_delivered s ++ ne /\
+    ansreqs (astep s l) = ansreqs s ++ nr /\
     (nu (astep s l) < nu s)%nat.
 
 Lemma idle_head s r1 rs' : Inv s -> a_pt s = PIdle \/ (exists q, a_pt s = PCancel q) -> a_s2c s = r1 :: rs' ->
@@ -443,44 +615,47 @@ Proof.
       exists ns; reflexivity.
 Qed.
 
-Lemma xstep_sim x s g : Rel x s -> Inv s ->
+Lemma xstep_sim x s g : Rel x s -> Inv s -> Inv2 s ->
   match xstep x g with None => True | Some (x4, g4) => step_post s g x4 g4 end.
 Proof.
-  intros HR HI. destruct (a_pt s) as [|q|id| |] eqn:EP.
+  intros HR HI H2. destruct (a_pt s) as [|q|id| |] eqn:EP.
   - (* PIdle *)
     destruct (try_receive_rel x s HR) as [st' [rest [[TR SC]|[r1 [rs' [ES [TR SC]]]]]]].
     + destruct (a_queue s) as [|q rest'] eqn:EQ.
       * rewrite (xstep_none_idle x s g st' rest HR EP EQ TR). exact I.
       * destruct (sim_take_idle x s g q rest' st' rest HR EP EQ TR SC) as [x4 [g4 [EX [HR4 GE]]]]. rewrite EX.
         exists LTake, [], []. split; [left; reflexivity|]. split; [exact HR4|]. split; [exact GE|].
-        rewrite (a_take_idle s q rest' EP EQ). unfold nu. cbn. rewrite !app_nil_r, EP. cbn. split; [reflexivity|]. split; [reflexivity|lia].
+        rewrite (a_take_idle s q rest' EP EQ). unfold nu, ansreqs. cbn. rewrite !app_nil_r, EP. cbn. split; [reflexivity|]. split; [reflexivity|]. split; [reflexivity|lia].
     + destruct (idle_head s r1 rs' HI (or_introl EP) ES) as [ns ->].
       destruct (sim_recv_idle x s g ns rs' st' rest HR EP ES TR SC) as [x4 [g4 [EX [HR4 GE]]]]. rewrite EX.
       exists LRecv, [], ns. split; [right; left; reflexivity|]. split; [exact HR4|]. split; [exact GE|].
-      rewrite (a_recv_idle s ns rs' EP ES). unfold nu. cbn. rewrite !app_nil_r, EP, ES. cbn. split; [reflexivity|]. split; [reflexivity|lia].
+      rewrite (a_recv_idle s ns rs' EP ES). unfold nu, ansreqs. cbn. rewrite !app_nil_r, EP, ES. cbn. split; [reflexivity|]. split; [reflexivity|]. split; [reflexivity|lia].
   - (* PCancel *)
     destruct (try_receive_rel x s HR) as [st' [rest [[TR SC]|[r1 [rs' [ES [TR SC]]]]]]].
     + rewrite (xstep_none_recv_only x s g st' rest HR (or_introl (ex_intro _ q EP)) TR). exact I.
     + destruct (idle_head s r1 rs' HI (or_intror (ex_intro _ q EP)) ES) as [ns ->].
       destruct (sim_recv_cancel x s g q ns rs' st' rest HR EP ES TR SC) as [x4 [g4 [EX [HR4 GE]]]]. rewrite EX.
       exists LRecv, [], ns. split; [right; left; reflexivity|]. split; [exact HR4|]. split; [exact GE|].
-      rewrite (a_recv_cancel s q ns rs' EP ES). unfold nu. cbn. rewrite !app_nil_r, EP, ES. cbn. split; [reflexivity|]. split; [reflexivity|lia].
+      rewrite (a_recv_cancel s q ns rs' EP ES). unfold nu, ansreqs. cbn [a_replies a_delivered a_s2c a_pt a_sent map]. rewrite !app_nil_r, EP, ES, removelast_last. cbn.
+      split; [reflexivity|]. split; [reflexivity|]. split; [reflexivity|lia].
   - (* PWait *)
     destruct (try_receive_rel x s HR) as [st' [rest [[TR SC]|[r1 [rs' [ES [TR SC]]]]]]].
     + rewrite (xstep_none_recv_only x s g st' rest HR (or_intror (ex_intro _ id EP)) TR). exact I.
-    + destruct (sim_recv_wait x s g id r1 rs' st' rest HR EP ES TR SC) as [x4 [g4 [EX [HR4 GE]]]]. rewrite EX.
-      exists LRecv, [(id, resp_of echo_reply r1)], []. split; [right; left; reflexivity|]. split; [exact HR4|]. split; [exact GE|].
-      rewrite (a_recv_wait s id r1 rs' EP ES). unfold nu. cbn. rewrite !app_nil_r, EP, ES. cbn. split; [reflexivity|]. split; [reflexivity|lia].
+    + destruct (sim_recv_wait x s g id r1 rs' st' rest HR HI H2 EP ES TR SC) as [x4 [g4 [q [EX [HR4 [GE [ERQ ESQ]]]]]]]. rewrite EX.
+      exists LRecv, [q], []. split; [right; left; reflexivity|]. split; [exact HR4|]. split; [exact GE|].
+      rewrite (a_recv_wait s id r1 rs' EP ES). unfold nu, ansreqs. cbn [a_replies a_delivered a_s2c a_pt a_sent map]. rewrite !app_nil_r, EP, ES, ERQ. cbn.
+      split; [reflexivity|]. split; [reflexivity|]. split; [exact ESQ|lia].
   - (* PWindow *)
     destruct (a_queue s) as [|q rest'] eqn:EQ.
     + destruct (idle_timeout_ms <=? x_elapsed x) eqn:ET.
       * destruct (sim_timeout x s g HR EP EQ ET) as [x4 [g4 [EX [HR4 GE]]]]. rewrite EX.
         exists LTimeout, [], []. split; [right; right; reflexivity|]. split; [exact HR4|]. split; [exact GE|].
-        rewrite (a_timeout s EP). unfold nu. cbn. rewrite !app_nil_r, EP. cbn. split; [reflexivity|]. split; [reflexivity|lia].
+        rewrite (a_timeout s EP). unfold nu, ansreqs. cbn. rewrite !app_nil_r, EP. cbn. split; [reflexivity|]. split; [reflexivity|]. split; [reflexivity|lia].
       * rewrite (xstep_none_window x s g HR EP EQ ET). exact I.
     + destruct (sim_take_window x s g q rest' HR EP EQ) as [x4 [g4 [EX [HR4 GE]]]]. rewrite EX.
       exists LTake, [], []. split; [left; reflexivity|]. split; [exact HR4|]. split; [exact GE|].
-      rewrite (a_take_window s q rest' EP EQ). unfold nu. cbn. rewrite !app_nil_r, EP. cbn. split; [reflexivity|]. split; [reflexivity|lia].
+      rewrite (a_take_window s q rest' EP EQ). unfold nu, ansreqs. cbn [a_replies a_delivered a_s2c a_pt a_sent map]. rewrite !app_nil_r, EP, removelast_last. cbn.
+      split; [reflexivity|]. split; [reflexivity|]. split; [reflexivity|lia].
   - (* PExited *) destruct HI as [SH _]. unfold shape in SH. rewrite EP in SH. contradiction.
 Qed.
 
@@ -495,26 +670,29 @@ Proof. intros [H|[H|H]]; subst l; exact I. Qed.
 
 Definition run_post (s : asys) (g : seg) (x' : xsys) (g' : seg) : Prop :=
   exists sch nr ne, Forall client_label sch /\ Rel x' (fold_left astep sch s) /\ Inv (fold_left astep sch s) /\
+    Inv2 (fold_left astep sch s) /\
     gext g g' nr ne /\
-    a_replies (fold_left astep sch s) = a_replies s ++ nr /\
-    a_delivered (fold_left astep sch s) = a_delivered s ++ ne.
+    a_replies (fold_left astep sch s) = a_replies s ++ map R nr /\
+    a_delivered (fold_left astep sch s) = a_delivered s ++ ne /\
+    ansreqs (fold_left astep sch s) = ansreqs s ++ nr.
 
-Lemma settle_sim : forall f x g s, Rel x s -> Inv s -> (nu s < f)%nat ->
+Lemma settle_sim : forall f x g s, Rel x s -> Inv s -> Inv2 s -> (nu s < f)%nat ->
   run_post s g (fst (settle f x g)) (snd (settle f x g)).
 Proof.
-  induction f as [|f IH]; intros x g s HR HI Hf; [lia|].
-  rewrite (settle_unfold f x g s HR). pose proof (xstep_sim x s g HR HI) as XS.
+  induction f as [|f IH]; intros x g s HR HI H2 Hf; [lia|].
+  rewrite (settle_unfold f x g s HR). pose proof (xstep_sim x s g HR HI H2) as XS.
   destruct (xstep x g) as [[x4 g4]|].
-  - destruct XS as [l [nr [ne [CL [HR4 [GE [ER [ED NU]]]]]]]].
+  - destruct XS as [l [nr [ne [CL [HR4 [GE [ER [ED [EA NU]]]]]]]]].
     assert (HI4 : Inv (astep s l)) by (apply inv_step; [apply client_label_wf; exact CL|exact HI]).
+    assert (H24 : Inv2 (astep s l)) by (apply inv2_step; [apply client_label_wf; exact CL|exact HI|exact H2]).
     assert (Hf4 : (nu (astep s l) < f)%nat) by lia.
-    destruct (IH x4 g4 (astep s l) HR4 HI4 Hf4) as [sch [nr' [ne' [CS [HR' [HI' [GE' [ER' ED']]]]]]]].
+    destruct (IH x4 g4 (astep s l) HR4 HI4 H24 Hf4) as [sch [nr' [ne' [CS [HR' [HI' [H2' [GE' [ER' [ED' EA']]]]]]]]]].
     exists (l :: sch), (nr ++ nr'), (ne ++ ne'). cbn [fold_left].
-    split; [constructor; assumption|]. split; [exact HR'|]. split; [exact HI'|].
+    split; [constructor; assumption|]. split; [exact HR'|]. split; [exact HI'|]. split; [exact H2'|].
     split; [eapply gext_trans; eassumption|].
-    rewrite ER', ED', ER, ED, <- !app_assoc. auto.
-  - exists [], [], []. cbn [fold_left fst snd]. rewrite !app_nil_r.
-    split; [constructor|]. split; [exact HR|]. split; [exact HI|].
+    rewrite ER', ED', EA', ER, ED, EA, map_app, <- !app_assoc. auto.
+  - exists [], [], []. cbn [fold_left fst snd map]. rewrite !app_nil_r.
+    split; [constructor|]. split; [exact HR|]. split; [exact HI|]. split; [exact H2|].
     split; [unfold gext; cbn; rewrite !app_nil_r; auto|auto].
 Qed.
 
@@ -536,6 +714,11 @@ Definition issue_line (x : xsys) (id : N) (l : bytes) : xsys * seg :=
   if loop_alive x then (set_qc x (x_queue x ++ [mkReq id (l ++ [LF])]) (x_callers x ++ [(id, KRaw true)]), seg0)
   else (x, add_res seg0 id (b "closed")).
 
+Definition issue_lines (x : xsys) (id : N) (ls : list bytes) : xsys * seg :=
+  if negb (x_client x && x_handle x) then (x, add_res seg0 id (b "noclient")) else
+  if loop_alive x then (set_qc x (x_queue x ++ [mkReq id (render_list ls)]) (x_callers x ++ [(id, KRaw false)]), seg0)
+  else (x, add_res seg0 id (b "closed")).
+
 Definition run_op (x1 : xsys) (g : seg) : xsys * option seg :=
   let '(x2, g2) := settle (fuel_for x1) x1 g in (x2, Some g2).
 
@@ -553,6 +736,7 @@ Definition sem (x : xsys) (gl : glabel) : xsys * option seg :=
     end
   | GTick ms => run_op (set_pt x (x_pt x) (match x_pt x with PWindow => x_elapsed x + ms | _ => x_elapsed x end)) seg0
   | GIssue id l => let '(x1, g1) := issue_line x id l in run_op x1 g1
+  | GIssueL id ls => let '(x1, g1) := issue_lines x id ls in run_op x1 g1
   end.
 
 Ltac compute_eqb :=
@@ -581,6 +765,9 @@ Definition sem3 (x : xsys) (lab : bytes) (gl : glabel) : option bytes * xsys * o
   | GIssue id l =>
     let '(x1, g1) := issue_line x id l in
     let '(x2, g2) := settle (fuel_for x1) x1 g1 in (Some lab, x2, Some g2)
+  | GIssueL id ls =>
+    let '(x1, g1) := issue_lines x id ls in
+    let '(x2, g2) := settle (fuel_for x1) x1 g1 in (Some lab, x2, Some g2)
   end.
 
 Ltac known_kind E kind :=
@@ -596,10 +783,15 @@ Ltac classify_chain kind :=
   [ known_kind E68 kind; intros H; inversion H; subst; unfold apply_core, sem3; compute_eqb; cbv beta zeta iota; reflexivity |];
   destruct (kind =? 116) eqn:E116;
   [ known_kind E116 kind; intros H; inversion H; subst; unfold apply_core, sem3; compute_eqb; cbv beta zeta iota; reflexivity |];
-  destruct (kind =? 99) eqn:E99; [|discriminate];
-  known_kind E99 kind; unfold apply_core, issue, sem3, issue_line; cbn [existsb]; compute_eqb; cbn [orb]; cbv beta zeta iota;
+  destruct (kind =? 99) eqn:E99;
+  [ known_kind E99 kind; unfold apply_core, issue, sem3, issue_line; cbn [existsb]; compute_eqb; cbn [orb]; cbv beta zeta iota;
+    match goal with |- context [all_some_l ?m] => destruct (all_some_l m) as [[|l0 ls0]|] end; try discriminate;
+    intros H; inversion H; subst; cbn [render_list]; cbv beta zeta;
+    destruct (negb _); [reflexivity|]; destruct (loop_alive _); reflexivity |];
+  destruct (kind =? 105) eqn:E105; [|discriminate];
+  known_kind E105 kind; unfold apply_core, issue, sem3, issue_lines; cbn [existsb]; compute_eqb; cbn [orb]; cbv beta zeta iota;
   match goal with |- context [all_some_l ?m] => destruct (all_some_l m) as [[|l0 ls0]|] end; try discriminate;
-  intros H; inversion H; subst; cbn [render_list]; cbv beta zeta;
+  intros H; inversion H; subst; cbv beta zeta;
   destruct (negb _); [reflexivity|]; destruct (loop_alive _); reflexivity.
 
 (* the part of classify after the label is split at ':' *)
@@ -612,6 +804,11 @@ Definition classify_core (kind : N) (idtxt arg : bytes) : option glabel :=
   else if kind =? 99 then
     match all_some_l (map parse_spec (split_specs arg)) with
     | Some (l :: _) => Some (GIssue id l)
+    | _ => None
+    end
+  else if kind =? 105 then
+    match all_some_l (map parse_spec (split_specs arg)) with
+    | Some (l :: ls) => Some (GIssueL id (l :: ls))
     | _ => None
     end
   else None.
@@ -631,8 +828,9 @@ Lemma sem3_sem x lab gl :
   snd (fst (sem3 x lab gl)) = fst (sem x gl) /\ snd (sem3 x lab gl) = snd (sem x gl) /\
   match snd (sem3 x lab gl), fst (fst (sem3 x lab gl)) with Some _, None => False | _, _ => True end.
 Proof.
-  destruct gl as [id l|n|all|k|ms]; unfold sem3, sem, run_op.
+  destruct gl as [id l|id ls|n|all|k|ms]; unfold sem3, sem, run_op.
   - destruct (issue_line x id l) as [x1 g1]. destruct (settle _ x1 g1). repeat split.
+  - destruct (issue_lines x id ls) as [x1 g1]. destruct (settle _ x1 g1). repeat split.
   - destruct (snotify _ _). repeat split.
   - repeat split.
   - cbv zeta. match goal with |- context [match ?c with [] => _ | _ :: _ => _ end] => destruct c end.
@@ -666,17 +864,6 @@ Lemma echo_parts l : echo_line cf l = true ->
   beq l (removelast command_list_begin) = false.
 Proof. intros E. destruct (echo_line_parts cf l E) as [A [B [C [D _]]]]. auto. Qed.
 
-(* every write on the wire is one LF-terminated line *)
-Lemma write_line u : write_ok cf u -> exists l, u = l ++ [LF] /\ no_lf l = true /\
-  (u = idle_line /\ l = idle_word \/ u = noidle_line /\ l = noidle_word \/ req_ok cf u /\ echo_line cf l = true).
-Proof.
-  intros [->|[->|[l [-> E]]]].
-  - exists idle_word. split; [reflexivity|]. split; [reflexivity|auto].
-  - exists noidle_word. split; [reflexivity|]. split; [reflexivity|auto].
-  - exists l. split; [reflexivity|]. split; [apply (echo_parts l E)|].
-    right; right. split; [exists l; auto|exact E].
-Qed.
-
 Lemma beq_snoc (l m : bytes) c : beq l m = false -> beq (l ++ [c]) (m ++ [c]) = false.
 Proof.
   intros H. apply beq_neq. intros E. apply app_inj_tail in E. destruct E as [E _]. subst m.
@@ -696,66 +883,127 @@ Proof. rewrite app_nil_r. auto. Qed.
 Lemma removelast_snoc (l : bytes) c : removelast (l ++ [c]) = l.
 Proof. apply removelast_last. Qed.
 
-Lemma serve_line x s u rest : Rel x s -> a_c2s s = u :: rest ->
-  exists l, take_line (x_c2s x) = Some (l, concat rest) /\
-    Rel (set_net x (fst (sline (x_cf x) (x_srv x) l)) (concat rest) (x_s2c x ++ snd (sline (x_cf x) (x_srv x) l)))
-        (LoopSpec.serve s).
+(* while the abstract server idles, only (at most one) noidle is on its way to it *)
+Lemma inv_idle_c2s s : Inv s -> a_idle s = true -> a_c2s s = [] \/ a_c2s s = [noidle_line].
 Proof.
-  intros HR EC. pose proof HR as HR'. destr_rel HR'.
-  rewrite EC in Hwrites. pose proof (Forall_inv Hwrites) as Hu. pose proof (Forall_inv_tail Hwrites) as Hrest.
-  destruct (write_line u Hu) as [l [EU [NL KIND]]]. exists l.
-  split. { rewrite Hc2s, EC. cbn [concat]. rewrite EU, <- app_assoc. cbn [app]. apply take_line_app. exact NL. }
-  unfold LoopSpec.serve. rewrite EC. unfold sline. rewrite Hidle, Hlist, Hcf.
-  destruct (a_idle s) eqn:EI.
-  - (* the server is idling *)
-    destruct KIND as [[E1 E2]|[[E1 E2]|[E1 E2]]].
-    + (* idle while idling: a violation on both sides *)
-      rewrite E1, E2. rewrite (proj1 idle_noidle_distinct). change (beq idle_word noidle_word) with false. cbn [fst snd].
-      constructor; xsimp; try assumption; try reflexivity. apply s2c_nil_out; assumption.
-    + (* noidle while idling: the changes are flushed *)
-      rewrite E1, E2. rewrite !beq_refl. unfold flush_changes, flush. cbn [fst snd]. rewrite Hpending.
-      constructor; xsimp; try assumption; try reflexivity.
-      * constructor.
-      * rewrite ?Hreported, ?Hpending. reflexivity.
-      * apply forall_snoc; assumption.
-      * apply (s2c_snoc _ _ _ _ _ (SIdle (a_pending s))). assumption.
-    + (* a request while idling: a violation on both sides *)
-      destruct (echo_parts l E2) as [W [B1 [B2 B3]]].
-      rewrite B2. rewrite EU. change noidle_line with (noidle_word ++ [LF]). rewrite (beq_snoc _ _ LF B2). cbn [fst snd].
-      constructor; xsimp; try assumption; try reflexivity. apply s2c_nil_out; assumption.
-  - (* the server is not idling *)
-    destruct KIND as [[E1 E2]|[[E1 E2]|[E1 E2]]].
-    + rewrite E1, E2. rewrite !beq_refl. rewrite Hpending. destruct (a_pending s) as [|p ps] eqn:EPD.
-      * cbn [fst snd]. constructor; xsimp; try assumption; try reflexivity.
-        apply s2c_nil_out; assumption.
-      * unfold flush_changes, flush. cbn [fst snd]. rewrite Hpending, EPD.
-        constructor; xsimp; try assumption; try reflexivity.
-        -- constructor.
-        -- rewrite Hreported. reflexivity.
-        -- apply forall_snoc; assumption.
-        -- apply (s2c_snoc _ _ _ _ _ (SIdle (p :: ps))). assumption.
-    + rewrite E1, E2. change (beq noidle_word idle_word) with false. rewrite (proj2 idle_noidle_distinct). rewrite !beq_refl. cbn [fst snd].
-      constructor; xsimp; try assumption; try reflexivity; try (rewrite Hidle; exact EI).
-      apply s2c_nil_out; assumption.
-    + destruct (echo_parts l E2) as [W [B1 [B2 B3]]].
-      rewrite B1, B2, B3. fold (srv_out cf l). rewrite EU.
-      change idle_line with (idle_word ++ [LF]). change noidle_line with (noidle_word ++ [LF]).
-      rewrite (beq_snoc _ _ LF B1), (beq_snoc _ _ LF B2). cbn [fst snd].
-      constructor; xsimp; try assumption; try reflexivity; try (rewrite Hidle; exact EI).
-      * apply forall_snoc; [assumption|]. cbn [LoopRefine.wf_s]. rewrite removelast_snoc. exact E2.
-      * pose proof (s2c_snoc _ _ _ _ _ (SReply (l ++ [LF])) Hs2c) as SN. cbn [LoopRefine.enc_s] in SN. rewrite removelast_snoc in SN. exact SN.
+  intros [SH _] Hi. unfold shape in SH. destruct (a_pt s).
+  - destruct SH as [(Hc & Hi' & _) | [(Hc & _) | (ns & Hc & Hi' & _)]]; try congruence. left; exact Hc.
+  - destruct SH as (_ & _ & [(Hc & Hi' & _) | [(Hc & _) | [(ns & Hc & Hi' & _) | (ns & Hc & Hi' & _)]]]); try congruence. right; exact Hc.
+  - destruct SH as (q & _ & _ & _ & Hi' & _). congruence.
+  - destruct SH as (_ & Hi' & _). congruence.
+  - contradiction.
 Qed.
 
+Lemma list_not_session_word ls : beq (list_bytes ls) idle_line = false /\ beq (list_bytes ls) noidle_line = false.
+Proof.
+  split; apply beq_neq; intros E; pose proof (is_list_bytes ls) as L; rewrite E in L; vm_compute in L; discriminate.
+Qed.
 
+(* the server reads one line: a stutter (inside a command list) or one abstract step *)
+Ltac rfl := try match goal with |- @eq _ _ _ => reflexivity end.
+
+Ltac fin_rel :=
+  try (unfold LoopRefine.C2S; xsimp; match goal with H : s_list _ = _ |- _ => rewrite ?H end; reflexivity);
+  try (match goal with HR : s_reported _ = _, HP : s_pending _ = _ |- _ => rewrite ?HR, ?HP end; reflexivity);
+  try (apply forall_snoc; assumption);
+  try (apply s2c_nil_out; assumption);
+  try (symmetry; assumption);
+  try (match goal with E : a_c2s _ = _ |- Forall _ (a_c2s _) => rewrite E; assumption end);
+  try (constructor; fail).
+
+Lemma serve_line x s : Rel x s -> Inv s -> x_c2s x <> [] ->
+  exists l rest, take_line (x_c2s x) = Some (l, rest) /\
+    (Rel (set_net x (fst (sline (x_cf x) (x_srv x) l)) rest (x_s2c x ++ snd (sline (x_cf x) (x_srv x) l))) s \/
+     Rel (set_net x (fst (sline (x_cf x) (x_srv x) l)) rest (x_s2c x ++ snd (sline (x_cf x) (x_srv x) l))) (astep s LServe)).
+Proof.
+  intros HR HI NE. pose proof HR as HR'. destr_rel HR'.
+  destruct begin_end_words as [EB [EE [NB [NEW BE]]]].
+  unfold LoopRefine.C2S in Hc2s. destruct (s_list (x_srv x)) as [acc|] eqn:ESL.
+  - (* inside a command list *)
+    destruct Hc2s as [rest [todo [EA [EX [EI G]]]]].
+    pose proof (list_good_parts cf _ G) as [_ [FL _]].
+    destruct todo as [|l todo].
+    + (* the closing line: the list is executed *)
+      exists end_word, (concat rest). rewrite app_nil_r in *. cbn [flat_map app] in EX.
+      split. { rewrite EX, EE, <- app_assoc. cbn [app]. apply take_line_app. exact NEW. }
+      right. unfold sline. rewrite Hidle, EI, ESL, Hcf. fold end_word. rewrite beq_refl. cbn [fst snd].
+      unfold LoopSpec.astep, LoopSpec.serve. rewrite EA, EI.
+      destruct (list_not_session_word acc) as [N1 N2]. rewrite N1, N2.
+      rewrite EA in Hwrites.
+      constructor; xsimp; try assumption; rfl; fin_rel.
+      * exact (Forall_inv_tail Hwrites).
+      * apply forall_snoc; [assumption|]. cbn [LoopRefine.wf_s]. apply req_good_list. exact G.
+      * pose proof (s2c_snoc _ _ _ _ _ (SReply (list_bytes acc)) Hs2c) as SN. cbn [LoopRefine.enc_s] in SN.
+        rewrite is_list_bytes, (list_lines_bytes acc (list_good_no_lf cf acc G)) in SN. exact SN.
+    + (* one more command of the list *)
+      rewrite Forall_app in FL. destruct FL as [_ FT]. pose proof (Forall_inv FT) as LL.
+      destruct (list_line_parts l LL) as [NL NEL].
+      exists l, (flat_map (fun l0 => l0 ++ [LF]) todo ++ command_list_end ++ concat rest).
+      split. { rewrite EX. cbn [flat_map]. rewrite <- !app_assoc. cbn [app]. apply take_line_app. exact NL. }
+      left. unfold sline. rewrite Hidle, EI, ESL. fold end_word. rewrite NEL. cbn [fst snd].
+      constructor; xsimp; try assumption; rfl; fin_rel.
+      unfold LoopRefine.C2S. xsimp. exists rest, todo. rewrite <- app_assoc. cbn [app]. auto.
+  - (* between requests *)
+    destruct (a_c2s s) as [|u rest] eqn:EC; [rewrite Hc2s in NE; cbn in NE; congruence|].
+    pose proof (Forall_inv Hwrites) as Hu. pose proof (Forall_inv_tail Hwrites) as Hrest.
+    destruct (a_idle s) eqn:EI.
+    + (* the server idles: by the invariant the write is noidle *)
+      destruct (inv_idle_c2s s HI EI) as [E|E]; rewrite EC in E; [discriminate|]. injection E as -> ->.
+      exists noidle_word, []. split; [rewrite Hc2s; reflexivity|].
+      right. unfold sline. rewrite Hidle, ?EI, ?Hcf. rewrite beq_refl. unfold flush_changes. cbn [fst snd].
+      unfold LoopSpec.astep, LoopSpec.serve. rewrite ?EC, ?EI, beq_refl. unfold flush. rewrite Hpending.
+      constructor; xsimp; try assumption; rfl; fin_rel.
+      apply (s2c_snoc _ _ _ _ _ (SIdle (a_pending s))). assumption.
+    + destruct Hu as [->|[->|RG]].
+      * (* idle *)
+        exists idle_word, (concat rest). split; [rewrite Hc2s; reflexivity|].
+        right. unfold sline. rewrite Hidle, ?EI, ESL, ?Hcf. rewrite beq_refl. rewrite Hpending.
+        unfold LoopSpec.astep, LoopSpec.serve. rewrite ?EC, ?EI, beq_refl.
+        destruct (a_pending s) as [|p ps] eqn:EPD.
+        -- cbn [fst snd]. constructor; xsimp; try assumption; rfl; fin_rel.
+        -- unfold flush_changes, flush. cbn [fst snd]. rewrite Hpending, ?EPD.
+           constructor; xsimp; try assumption; rfl; fin_rel.
+           apply (s2c_snoc _ _ _ _ _ (SIdle (p :: ps))). assumption.
+      * (* noidle outside idle: ignored *)
+        exists noidle_word, (concat rest). split; [rewrite Hc2s; reflexivity|].
+        right. unfold sline. rewrite Hidle, ?EI, ESL. change (beq noidle_word idle_word) with false. rewrite beq_refl. cbn [fst snd].
+        unfold LoopSpec.astep, LoopSpec.serve. rewrite ?EC, ?EI. rewrite (proj2 idle_noidle_distinct), beq_refl.
+        constructor; xsimp; try assumption; rfl; fin_rel.
+      * (* a request *)
+        unfold req_ok in RG. destruct (req_good_cases cf u RG) as [[EL [ls [EU [ELL G]]]]|[EL [l [EU [ERL E0]]]]].
+        -- (* the opening line of a command list *)
+           exists begin_word, (flat_map (fun l0 => l0 ++ [LF]) ls ++ command_list_end ++ concat rest).
+           split. { rewrite Hc2s. cbn [concat]. rewrite EU. unfold list_bytes. rewrite EB, <- !app_assoc. cbn [app]. apply take_line_app. exact NB. }
+           left. unfold sline. rewrite Hidle, ?EI, ESL.
+           change (beq begin_word idle_word) with false. change (beq begin_word noidle_word) with false.
+           fold begin_word. rewrite beq_refl. cbn [fst snd].
+           constructor; xsimp; try assumption; rfl; fin_rel.
+           unfold LoopRefine.C2S. xsimp. exists rest, ls. cbn [app]. rewrite ?EC, <- EU. auto.
+        -- (* a single line *)
+           destruct (echo_parts l E0) as [NL [B1 [B2 B3]]].
+           exists l, (concat rest). split. { rewrite Hc2s. cbn [concat]. rewrite EU, <- app_assoc. cbn [app]. apply take_line_app. exact NL. }
+           right. unfold sline. rewrite Hidle, ?EI, ESL, ?Hcf. rewrite B1, B2. fold begin_word in B3. fold begin_word. rewrite B3.
+           fold (srv_out cf l). cbn [fst snd].
+           unfold LoopSpec.astep, LoopSpec.serve. rewrite ?EC, ?EI. rewrite EU.
+           change idle_line with (idle_word ++ [LF]). change noidle_line with (noidle_word ++ [LF]).
+           rewrite (beq_snoc _ _ LF B1), (beq_snoc _ _ LF B2).
+           constructor; xsimp; try assumption; rfl; fin_rel.
+           ++ apply forall_snoc; [assumption|]. cbn [LoopRefine.wf_s]. rewrite <- EU. exact RG.
+           ++ pose proof (s2c_snoc _ _ _ _ _ (SReply (l ++ [LF])) Hs2c) as SN. cbn [LoopRefine.enc_s] in SN.
+              rewrite <- EU, EL, ERL in SN. rewrite <- EU. exact SN.
+Qed.
 
 Lemma serve_keeps s : a_replies (LoopSpec.serve s) = a_replies s /\ a_delivered (LoopSpec.serve s) = a_delivered s /\
-  a_pt (LoopSpec.serve s) = a_pt s.
+  a_pt (LoopSpec.serve s) = a_pt s /\ a_sent (LoopSpec.serve s) = a_sent s.
 Proof.
   unfold LoopSpec.serve. destruct (a_c2s s); [auto|].
   destruct (a_idle s); [destruct (beq _ _); cbn; auto|].
   destruct (beq _ idle_line); [destruct (a_pending s); cbn; auto|].
   destruct (beq _ noidle_line); cbn; auto.
 Qed.
+
+Lemma ansreqs_same s s' : a_pt s' = a_pt s -> a_sent s' = a_sent s -> ansreqs s' = ansreqs s.
+Proof. intros E1 E2. unfold ansreqs. rewrite E1, E2. reflexivity. Qed.
 
 (* the requests a schedule issues *)
 Definition issued_in (sch : list label) : list request :=
@@ -772,128 +1020,193 @@ Qed.
 
 Definition label_post (s : asys) (x' : xsys) (og : option seg) (iq : list request) : Prop :=
   exists sch nr ne, Forall wf_label sch /\ issued_in sch = iq /\ Rel x' (fold_left astep sch s) /\ Inv (fold_left astep sch s) /\
-    a_replies (fold_left astep sch s) = a_replies s ++ nr /\
+    Inv2 (fold_left astep sch s) /\
+    a_replies (fold_left astep sch s) = a_replies s ++ map R nr /\
     a_delivered (fold_left astep sch s) = a_delivered s ++ ne /\
+    ansreqs (fold_left astep sch s) = ansreqs s ++ nr /\
     match og with Some g => gext seg0 g nr ne | None => nr = [] /\ ne = [] end.
 
-Lemma label_post_refl s x : Rel x s -> Inv s -> label_post s x None [].
+Lemma label_post_refl s x : Rel x s -> Inv s -> Inv2 s -> label_post s x None [].
 Proof.
-  intros HR HI. exists [], [], []. cbn [fold_left]. rewrite !app_nil_r.
-  split; [constructor|]. split; [reflexivity|]. split; [exact HR|]. split; [exact HI|]. auto.
+  intros HR HI H2. exists [], [], []. cbn [fold_left map]. rewrite !app_nil_r.
+  split; [constructor|]. split; [reflexivity|]. split; [exact HR|]. split; [exact HI|]. split; [exact H2|]. auto.
 Qed.
 
-Lemma serve_sim : forall fuel all x s, Rel x s -> Inv s -> label_post s (DriverLoop.serve fuel all x) None [].
+Lemma label_post_step s l x' : wf_label l -> issued_in [l] = [] -> Rel x' (astep s l) -> Inv s -> Inv2 s ->
+  a_replies (astep s l) = a_replies s -> a_delivered (astep s l) = a_delivered s -> ansreqs (astep s l) = ansreqs s ->
+  label_post s x' None [].
 Proof.
-  induction fuel as [|f IH]; intros all x s HR HI; cbn [DriverLoop.serve].
+  intros WL IL HR HI H2 ER ED EA. exists [l], [], []. cbn [fold_left map]. rewrite !app_nil_r.
+  split; [constructor; [exact WL|constructor]|]. split; [exact IL|]. split; [exact HR|].
+  split; [apply inv_step; assumption|]. split; [apply inv2_step; assumption|]. auto.
+Qed.
+
+Lemma serve_sim : forall fuel all x s, Rel x s -> Inv s -> Inv2 s -> label_post s (DriverLoop.serve fuel all x) None [].
+Proof.
+  induction fuel as [|f IH]; intros all x s HR HI H2; cbn [DriverLoop.serve].
   - apply label_post_refl; assumption.
-  - destruct (a_c2s s) as [|u rest] eqn:EC.
-    + rewrite (r_c2s _ _ _ HR), EC. cbn [concat take_line]. apply label_post_refl; assumption.
-    + destruct (serve_line x s u rest HR EC) as [l [TL HR1]]. rewrite TL.
+  - destruct (x_c2s x) as [|c0 cs0] eqn:EX.
+    + cbn [take_line]. apply label_post_refl; assumption.
+    + assert (NE : x_c2s x <> []) by (rewrite EX; discriminate).
+      destruct (serve_line x s HR HI NE) as [l [rest [TL HR1]]]. rewrite EX in TL. rewrite TL.
       destruct (sline (x_cf x) (x_srv x) l) as [st out]. cbn [fst snd] in HR1.
-      assert (HI1 : Inv (astep s LServe)) by (apply inv_step; [exact I|exact HI]).
-      change (LoopSpec.serve s) with (astep s LServe) in HR1.
-      assert (ONE : label_post s (set_net x st (concat rest) (x_s2c x ++ out)) None []).
-      { exists [LServe], [], []. cbn [fold_left]. rewrite !app_nil_r.
-        split; [constructor; [exact I|constructor]|]. split; [reflexivity|]. split; [exact HR1|]. split; [exact HI1|].
-        change (astep s LServe) with (LoopSpec.serve s).
-        destruct (serve_keeps s) as [K1 [K2 _]]. auto. }
-      destruct all; [|exact ONE].
-      destruct (IH true _ _ HR1 HI1) as [sch [nr [ne [WF [IQ [HR2 [HI2 [ER [ED [N1 N2]]]]]]]]]]. subst nr ne.
-      exists (LServe :: sch), [], []. cbn [fold_left]. rewrite !app_nil_r in *.
-      split; [constructor; [exact I|exact WF]|]. split; [exact IQ|]. split; [exact HR2|]. split; [exact HI2|].
-      rewrite ER, ED. change (astep s LServe) with (LoopSpec.serve s).
-      destruct (serve_keeps s) as [K1 [K2 _]]. auto.
+      destruct HR1 as [HR1|HR1].
+      * (* a stutter *)
+        destruct all; [apply IH; assumption|apply label_post_refl; assumption].
+      * assert (HI1 : Inv (astep s LServe)) by (apply inv_step; [exact I|exact HI]).
+        assert (H21 : Inv2 (astep s LServe)) by (apply inv2_step; [exact I|exact HI|exact H2]).
+        destruct (serve_keeps s) as [K1 [K2 [K3 K4]]]. change (LoopSpec.serve s) with (astep s LServe) in K1, K2, K3, K4.
+        pose proof (ansreqs_same s (astep s LServe) K3 K4) as K5.
+        destruct all; [|apply (label_post_step s LServe); auto; exact I].
+        destruct (IH true _ _ HR1 HI1 H21) as [sch [nr [ne [WF [IQ [HR2 [HI2 [H22 [ER [ED [EA [N1 N2]]]]]]]]]]]]. subst nr ne.
+        exists (LServe :: sch), [], []. cbn [fold_left map]. cbn [map] in ER. rewrite !app_nil_r in *.
+        split; [constructor; [exact I|exact WF]|]. split; [exact IQ|]. split; [exact HR2|]. split; [exact HI2|]. split; [exact H22|].
+        rewrite ER, ED, EA, K1, K2, K5. auto.
 Qed.
 
-Lemma notify_sim x s n : Rel x s -> Inv s -> wf_text n = true -> label_post s (fst (sem x (GNotify n))) None [].
+Lemma notify_sim x s n : Rel x s -> Inv s -> Inv2 s -> wf_text n = true -> label_post s (fst (sem x (GNotify n))) None [].
 Proof.
-  intros HR HI W. pose proof HR as HR'. destr_rel HR'.
-  assert (HI1 : Inv (astep s (LNotify n))) by (apply inv_step; [exact I|exact HI]).
-  exists [LNotify n], [], []. cbn [fold_left]. rewrite !app_nil_r.
-  split; [constructor; [exact I|constructor]|]. split; [reflexivity|]. split; [|split; [exact HI1|]].
+  intros HR HI H2 W. pose proof HR as HR'. destr_rel HR'.
+  apply (label_post_step s (LNotify n)); try assumption; try exact I; try reflexivity.
   - unfold sem, snotify, LoopSpec.astep. rewrite Hidle. destruct (a_idle s) eqn:EI.
-    + unfold flush_changes, flush. cbn [fst snd s_idle s_pending s_list s_violated s_reported]. xsimp.
-      constructor; xsimp; try assumption; try reflexivity.
-      * constructor.
-      * rewrite Hreported, Hpending. reflexivity.
-      * apply forall_snoc; [assumption|]. cbn [wf_s]. apply forall_snoc; assumption.
+    + unfold flush_changes, flush. cbn [fst snd]. xsimp.
+      constructor; xsimp; try assumption; rfl;
+        try (match goal with |- Forall2 _ _ _ => unfold outstanding in *; xsimp; exact Hcallers end);
+        try (match goal with |- LoopRefine.C2S _ _ _ =>
+               unfold LoopRefine.C2S in *; xsimp; destruct (s_list (x_srv x));
+               [destruct Hc2s as [r0 [t0 [A0 [B0 [C0 D0]]]]]; congruence|exact Hc2s] end);
+        try (constructor; fail);
+        try (rewrite Hreported, Hpending; reflexivity).
+      * apply forall_snoc; [assumption|]. cbn [LoopRefine.wf_s]. apply forall_snoc; assumption.
       * rewrite Hpending. apply (s2c_snoc _ _ _ _ _ (SIdle (a_pending s ++ [n]))). assumption.
-    + cbn [fst snd]. constructor; xsimp; try assumption; try reflexivity; try (rewrite Hidle; exact EI).
-      * rewrite Hpending. reflexivity.
-      * apply forall_snoc; assumption.
-      * apply s2c_nil_out; assumption.
-  - unfold LoopSpec.astep. destruct (a_idle s); cbn; auto.
+    + cbn [fst snd]. constructor; xsimp; try assumption; rfl; try (rewrite Hidle; exact EI);
+        try (match goal with |- Forall2 _ _ _ => unfold outstanding in *; xsimp; exact Hcallers end);
+        try (match goal with |- LoopRefine.C2S _ _ _ => eapply c2s_same; [exact Hc2s|reflexivity|reflexivity|reflexivity|xsimp; symmetry; exact EI] end);
+        try (rewrite Hpending; reflexivity);
+        try (apply forall_snoc; assumption);
+        try (apply s2c_nil_out; assumption).
+  - unfold LoopSpec.astep. destruct (a_idle s); reflexivity.
+  - unfold LoopSpec.astep. destruct (a_idle s); reflexivity.
+  - unfold LoopSpec.astep. destruct (a_idle s); reflexivity.
 Qed.
 
 Lemma fold_left_app_step sch pre s : fold_left astep sch (fold_left astep pre s) = fold_left astep (pre ++ sch) s.
 Proof. rewrite fold_left_app. reflexivity. Qed.
 
-Lemma run_op_after x1 s1 s pre : Rel x1 s1 -> Inv s1 -> s1 = fold_left astep pre s -> Forall wf_label pre ->
-  a_replies s1 = a_replies s -> a_delivered s1 = a_delivered s ->
+Lemma run_op_after x1 s1 s pre : Rel x1 s1 -> Inv s1 -> Inv2 s1 -> s1 = fold_left astep pre s -> Forall wf_label pre ->
+  a_replies s1 = a_replies s -> a_delivered s1 = a_delivered s -> ansreqs s1 = ansreqs s ->
   label_post s (fst (run_op x1 seg0)) (snd (run_op x1 seg0)) (issued_in pre).
 Proof.
-  intros HR HI ES WP ER ED.
+  intros HR HI H2 ES WP ER ED EA.
   assert (NB : (nu s1 < fuel_for x1)%nat) by (pose proof (nu_bound s1 HI); unfold fuel_for; lia).
-  destruct (settle_sim (fuel_for x1) x1 seg0 s1 HR HI NB) as [sch [nr [ne [CS [HR' [HI' [GE [ER' ED']]]]]]]].
+  destruct (settle_sim (fuel_for x1) x1 seg0 s1 HR HI H2 NB) as [sch [nr [ne [CS [HR' [HI' [H2' [GE [ER' [ED' EA']]]]]]]]]].
   unfold run_op. destruct (settle (fuel_for x1) x1 seg0) as [x2 g2]. cbn [fst snd] in *.
   exists (pre ++ sch), nr, ne. rewrite <- fold_left_app_step, <- ES.
   split. { apply Forall_app. split; [exact WP|]. eapply Forall_impl; [|exact CS]. apply client_label_wf. }
   split. { rewrite issued_in_app, (issued_in_client sch CS). apply app_nil_r. }
-  split; [exact HR'|]. split; [exact HI'|]. rewrite ER', ED', ER, ED. auto.
+  split; [exact HR'|]. split; [exact HI'|]. split; [exact H2'|]. rewrite ER', ED', EA', ER, ED, EA. auto.
 Qed.
 
-Lemma tick_sim x s ms : Rel x s -> Inv s ->
+Lemma tick_sim x s ms : Rel x s -> Inv s -> Inv2 s ->
   label_post s (fst (sem x (GTick ms))) (snd (sem x (GTick ms))) [].
 Proof.
-  intros HR HI. cbn [sem]. apply (run_op_after _ s s []); [|exact HI|reflexivity|constructor|reflexivity|reflexivity].
+  intros HR HI H2. cbn [sem]. apply (run_op_after _ s s []); [|exact HI|exact H2|reflexivity|constructor|reflexivity|reflexivity|reflexivity].
   destr_rel HR; constructor; xsimp; assumption.
 Qed.
 
-Lemma deliver_sim x s k : Rel x s -> Inv s ->
+Lemma deliver_sim x s k : Rel x s -> Inv s -> Inv2 s ->
   label_post s (fst (sem x (GDeliver k))) (snd (sem x (GDeliver k))) [].
 Proof.
-  intros HR HI. cbn [sem]. rewrite (r_eof _ _ _ HR).
+  intros HR HI H2. cbn [sem]. rewrite (r_eof _ _ _ HR).
   set (n := if k =? 0 then length (x_s2c x) else N.to_nat k).
   destruct (firstn n (x_s2c x)) as [|c chunk] eqn:EF.
   - cbn [fst snd]. apply label_post_refl; assumption.
-  - apply (run_op_after _ s s []); [|exact HI|reflexivity|constructor|reflexivity|reflexivity].
+  - apply (run_op_after _ s s []); [|exact HI|exact H2|reflexivity|constructor|reflexivity|reflexivity|reflexivity].
     destr_rel HR; constructor; xsimp; try assumption.
     destruct Hs2c as [done [P E]]. exists done. split; [exact P|].
     rewrite <- E, <- EF, <- !app_assoc. rewrite firstn_skipn. reflexivity.
 Qed.
 
-Lemma echo_wf_req id l : echo_line cf l = true -> wf_req (mkReq id (l ++ [LF])).
+(* a request of the fragment is never the idle or the noidle command *)
+Lemma good_wf_req id u : req_good cf u = true -> wf_req (mkReq id u).
 Proof.
-  intros E. destruct (echo_parts l E) as [_ [B1 [B2 _]]]. unfold wf_req. cbn [q_bytes].
-  split; intros H; apply app_inj_tail in H; destruct H as [H _]; subst l; rewrite beq_refl in *; discriminate.
+  intros G. unfold wf_req. cbn [q_bytes].
+  destruct (req_good_cases cf u G) as [[EL [ls [EU _]]]|[EL [l [EU [_ E0]]]]].
+  - rewrite EU. destruct (list_not_session_word ls) as [N1 N2].
+    split; intros H; rewrite H, beq_refl in *; discriminate.
+  - destruct (echo_parts l E0) as [_ [B1 [B2 _]]]. rewrite EU.
+    split; intros H; apply app_inj_tail in H; destruct H as [H _]; subst l; rewrite beq_refl in *; discriminate.
 Qed.
 
-Lemma issue_sim x s id l : Rel x s -> Inv s -> echo_line cf l = true ->
+(* issuing a request: appended to the queue on both sides, then the loop runs *)
+Lemma issue_any x s id u k : Rel x s -> Inv s -> Inv2 s -> req_good cf u = true ->
+  (k = true -> is_list u = false) ->
+  label_post s (fst (run_op (set_qc x (x_queue x ++ [mkReq id u]) (x_callers x ++ [(id, KRaw k)])) seg0))
+               (snd (run_op (set_qc x (x_queue x ++ [mkReq id u]) (x_callers x ++ [(id, KRaw k)])) seg0)) [mkReq id u].
+Proof.
+  intros HR HI H2 G HK. set (q := mkReq id u).
+  assert (WQ : wf_req q) by (apply good_wf_req; exact G).
+  apply (run_op_after _ (astep s (LIssue q)) s [LIssue q]);
+    [|apply inv_step; [exact WQ|exact HI]|apply inv2_step; [exact WQ|exact HI|exact H2]
+     |reflexivity|constructor; [exact WQ|constructor]|reflexivity|reflexivity|reflexivity].
+  destr_rel HR. cbn [LoopSpec.astep]. constructor; xsimp; try assumption; rfl.
+  - rewrite Hqueue. reflexivity.
+  - unfold outstanding in *. xsimp. rewrite app_assoc. apply Forall2_app; [exact Hcallers|].
+    constructor; [|constructor]. unfold crel. cbn [fst snd q_id q_bytes]. split; [reflexivity|].
+    destruct k; [left; split; [reflexivity|apply HK; reflexivity]|right; reflexivity].
+  - rewrite app_assoc. apply forall_snoc; [assumption|]. exact G.
+Qed.
+
+Lemma alive_ok x s : Rel x s -> Inv s ->
+  negb (x_client x && x_handle x) = false /\ loop_alive x = true.
+Proof.
+  intros HR HI. unfold loop_alive.
+  rewrite (r_client _ _ _ HR), (r_handle _ _ _ HR), (r_spawned _ _ _ HR), (r_pt _ _ _ HR). split; [reflexivity|].
+  destruct HI as [SH _]. unfold shape in SH. destruct (a_pt s); try reflexivity. contradiction.
+Qed.
+
+Lemma issue_sim x s id l : Rel x s -> Inv s -> Inv2 s -> echo_line cf l = true ->
   label_post s (fst (sem x (GIssue id l))) (snd (sem x (GIssue id l))) [mkReq id (l ++ [LF])].
 Proof.
-  intros HR HI E. cbn [sem]. unfold issue_line, loop_alive.
-  rewrite (r_client _ _ _ HR), (r_handle _ _ _ HR), (r_spawned _ _ _ HR), (r_pt _ _ _ HR). cbn [andb negb].
-  assert (NE : match a_pt s with PExited => false | _ => true end = true).
-  { destruct HI as [SH _]. unfold shape in SH. destruct (a_pt s); try reflexivity. contradiction. }
-  rewrite NE. set (q := mkReq id (l ++ [LF])).
-  assert (WQ : wf_req q) by (apply echo_wf_req; exact E).
-  apply (run_op_after _ (astep s (LIssue q)) s [LIssue q]);
-    [|apply inv_step; [exact WQ|exact HI]|reflexivity|constructor; [exact WQ|constructor]|reflexivity|reflexivity].
-  destr_rel HR. cbn [LoopSpec.astep]. constructor; xsimp; try assumption; try reflexivity.
-  - rewrite Hqueue. reflexivity.
-  - rewrite Hcallers. unfold callers_for. destruct (a_pt s); cbn [held app map]; rewrite ?map_app; reflexivity.
-  - rewrite app_assoc. apply forall_snoc; [assumption|]. exists l. auto.
+  intros HR HI H2 E. cbn [sem]. unfold issue_line. destruct (alive_ok x s HR HI) as [A1 A2]. rewrite A1, A2.
+  apply issue_any; try assumption.
+  - apply req_good_single. exact E.
+  - intros _. destruct (echo_line_parts cf l E) as [NL [_ [_ [NB _]]]]. apply is_list_single; assumption.
+Qed.
+
+Lemma good_lines ls : good cf (GIssueL 0 ls) = true -> ls <> [] -> req_good cf (render_list ls) = true.
+Proof.
+  intros G NE. destruct ls as [|l [|l2 ls]]; [congruence| |].
+  - cbn [good] in G. cbn [render_list]. apply req_good_single. exact G.
+  - cbn [good] in G. change (render_list (l :: l2 :: ls)) with (list_bytes (l :: l2 :: ls)). apply req_good_list. exact G.
+Qed.
+
+Lemma issue_list_sim x s id ls : Rel x s -> Inv s -> Inv2 s -> good cf (GIssueL id ls) = true -> ls <> [] ->
+  label_post s (fst (sem x (GIssueL id ls))) (snd (sem x (GIssueL id ls))) [mkReq id (render_list ls)].
+Proof.
+  intros HR HI H2 G NE. cbn [sem]. unfold issue_lines. destruct (alive_ok x s HR HI) as [A1 A2]. rewrite A1, A2.
+  apply issue_any; try assumption.
+  - apply good_lines; [|exact NE]. destruct ls as [|l [|l2 ls']]; exact G.
+  - discriminate.
 Qed.
 
 Definition issued_of (gl : glabel) : list request :=
-  match gl with GIssue id l => [mkReq id (l ++ [LF])] | _ => [] end.
+  match gl with
+  | GIssue id l => [mkReq id (l ++ [LF])]
+  | GIssueL id ls => [mkReq id (render_list ls)]
+  | _ => []
+  end.
 
-Lemma sem_sim x s gl : Rel x s -> Inv s -> good cf gl = true ->
+(* a list label comes from a non-empty list of lines (classify) *)
+Definition nonempty_list (gl : glabel) : Prop := match gl with GIssueL _ [] => False | _ => True end.
+
+Lemma sem_sim x s gl : Rel x s -> Inv s -> Inv2 s -> good cf gl = true -> nonempty_list gl ->
   label_post s (fst (sem x gl)) (snd (sem x gl)) (issued_of gl).
 Proof.
-  intros HR HI G. destruct gl as [id l|n|all|k|ms]; cbn [good] in G.
+  intros HR HI H2 G NEL. destruct gl as [id l|id ls|n|all|k|ms]; cbn [good] in G.
   - apply issue_sim; assumption.
-  - pose proof (notify_sim x s n HR HI G) as NS.
+  - apply issue_list_sim; try assumption. intros ->. exact NEL.
+  - pose proof (notify_sim x s n HR HI H2 G) as NS.
     assert (EN : snd (sem x (GNotify n)) = None) by (unfold sem; destruct (snotify _ _); reflexivity).
     rewrite EN. exact NS.
   - cbn [sem fst snd]. apply serve_sim; assumption.
@@ -901,53 +1214,63 @@ Proof.
   - apply tick_sim; assumption.
 Qed.
 
+Lemma classify_nonempty lab gl : classify lab = Some gl -> nonempty_list gl.
+Proof.
+  unfold classify, label_parts. destruct (split_on 58 lab) as [|h [|a t]]; try discriminate;
+    (destruct h as [|kind idtxt]; [discriminate|]);
+    repeat match goal with |- (if ?c then _ else _) = _ -> _ => destruct c end;
+    try (intros H; inversion H; exact I); try discriminate;
+    match goal with |- context [all_some_l ?m] => destruct (all_some_l m) as [[|l0 ls0]|] end;
+    try discriminate; intros H; inversion H; exact I.
+Qed.
+
 (* ---------- whole runs ---------- *)
 
 Definition run_rel (s : asys) (gls : list glabel) (x' : xsys) (segs : list seg) : Prop :=
   exists sch nr ne, Forall wf_label sch /\ issued_in sch = flat_map issued_of gls /\
-    Rel x' (fold_left astep sch s) /\ Inv (fold_left astep sch s) /\
-    a_replies (fold_left astep sch s) = a_replies s ++ nr /\
+    Rel x' (fold_left astep sch s) /\ Inv (fold_left astep sch s) /\ Inv2 (fold_left astep sch s) /\
+    a_replies (fold_left astep sch s) = a_replies s ++ map R nr /\
     a_delivered (fold_left astep sch s) = a_delivered s ++ ne /\
-    flat_map g_res segs = map res_text nr /\ flat_map g_ev segs = map ev_text ne /\
+    ansreqs (fold_left astep sch s) = ansreqs s ++ nr /\
+    flat_map g_res segs = map (res_text cf) nr /\ flat_map g_ev segs = map ev_text ne /\
     Forall (fun g => g_panic g = false) segs.
 
 Lemma xrun_sim : forall labs gls x s,
   Forall2 (fun lab gl => classify lab = Some gl) labs gls -> Forall (fun gl => good cf gl = true) gls ->
-  Rel x s -> Inv s -> run_rel s gls (fst (xrun x labs)) (snd (xrun x labs)).
+  Rel x s -> Inv s -> Inv2 s -> run_rel s gls (fst (xrun x labs)) (snd (xrun x labs)).
 Proof.
-  induction labs as [|lab labs IH]; intros gls x s F2 FG HR HI.
+  induction labs as [|lab labs IH]; intros gls x s F2 FG HR HI H2.
   - inversion F2; subst gls. cbn [xrun fst snd]. exists [], [], []. cbn [fold_left flat_map map]. rewrite !app_nil_r.
-    split; [constructor|]. split; [reflexivity|]. split; [exact HR|]. split; [exact HI|]. repeat split; auto.
+    split; [constructor|]. split; [reflexivity|]. split; [exact HR|]. split; [exact HI|]. split; [exact H2|]. repeat split; auto.
   - inversion F2 as [|lab' gl labs' gls' CL F2' E1 E2]. subst gls. clear F2.
     pose proof (Forall_inv FG) as G. pose proof (Forall_inv_tail FG) as FG'. cbn beta in G.
     destruct (classify_sem x lab gl CL) as [EX [EG OP]].
-    pose proof (sem_sim x s gl HR HI G) as LP. rewrite <- EX, <- EG in LP.
+    pose proof (sem_sim x s gl HR HI H2 G (classify_nonempty lab gl CL)) as LP. rewrite <- EX, <- EG in LP.
     cbn [xrun]. destruct (apply_label_g x lab) as [[op x1] og]. cbn [fst snd] in LP.
-    destruct LP as [sch [nr [ne [WF [IQ [HR1 [HI1 [ER [ED GE]]]]]]]]].
-    destruct (IH gls' x1 _ F2' FG' HR1 HI1) as [sch2 [nr2 [ne2 [WF2 [IQ2 [HR2 [HI2 [ER2 [ED2 [RS2 [EV2 PN2]]]]]]]]]]].
+    destruct LP as [sch [nr [ne [WF [IQ [HR1 [HI1 [H21 [ER [ED [EA GE]]]]]]]]]]].
+    destruct (IH gls' x1 _ F2' FG' HR1 HI1 H21) as [sch2 [nr2 [ne2 [WF2 [IQ2 [HR2 [HI2 [H22 [ER2 [ED2 [EA2 [RS2 [EV2 PN2]]]]]]]]]]]]].
     assert (IQA : issued_in (sch ++ sch2) = flat_map issued_of (gl :: gls')) by (rewrite issued_in_app, IQ, IQ2; reflexivity).
-    rewrite fold_left_app_step in HR2, HI2, ER2, ED2.
+    rewrite fold_left_app_step in HR2, HI2, H22, ER2, ED2, EA2.
     destruct og as [g|].
     + destruct (xrun x1 labs) as [xf gs]. cbn [fst snd] in *.
       destruct GE as [GR [GV GP]]. cbn [seg0 g_res g_ev g_panic app] in GR, GV, GP.
       exists (sch ++ sch2), (nr ++ nr2), (ne ++ ne2).
-      split; [apply Forall_app; split; assumption|]. split; [exact IQA|]. split; [exact HR2|]. split; [exact HI2|].
-      rewrite ER2, ED2, ER, ED, <- !app_assoc. split; [reflexivity|]. split; [reflexivity|].
+      split; [apply Forall_app; split; assumption|]. split; [exact IQA|]. split; [exact HR2|]. split; [exact HI2|]. split; [exact H22|].
+      rewrite ER2, ED2, EA2, ER, ED, EA, map_app, <- !app_assoc. split; [reflexivity|]. split; [reflexivity|]. split; [reflexivity|].
       cbn [flat_map]. rewrite !map_app, GR, GV, RS2, EV2.
       split; [reflexivity|]. split; [reflexivity|]. constructor; assumption.
-    + destruct GE as [N1 N2]. subst nr ne. rewrite !app_nil_r in *.
+    + destruct GE as [N1 N2]. subst nr ne. cbn [map] in ER. rewrite !app_nil_r in *.
       exists (sch ++ sch2), nr2, ne2.
-      split; [apply Forall_app; split; assumption|]. split; [exact IQA|]. split; [exact HR2|]. split; [exact HI2|].
-      rewrite ER2, ED2, ER, ED. auto.
+      split; [apply Forall_app; split; assumption|]. split; [exact IQA|]. split; [exact HR2|]. split; [exact HI2|]. split; [exact H22|].
+      rewrite ER2, ED2, EA2, ER, ED, EA. repeat split; auto.
 Qed.
 
 Lemma rel_init : Rel (xinit cf) a0.
 Proof.
   assert (E : xinit cf = mkX HDone None true false PIdle true [] Initial [] false false false [] [] true 0 false cf
                              s0 idle_line [] false [] false []) by (vm_compute; reflexivity).
-  rewrite E. constructor; cbn; try reflexivity; try constructor.
-  - left. reflexivity.
-  - constructor.
+  rewrite E. constructor; cbn; try reflexivity; try (constructor; fail).
+  - constructor; [left; reflexivity|constructor].
   - exists []. split; [intro z; reflexivity|reflexivity].
 Qed.
 
@@ -979,30 +1302,30 @@ Proof. reflexivity. Qed.
 
 Lemma run_labels_sim : forall labs gls x s ops segs,
   Forall2 (fun lab gl => classify lab = Some gl) labs gls -> Forall (fun gl => good cf gl = true) gls ->
-  Rel x s -> Inv s ->
+  Rel x s -> Inv s -> Inv2 s ->
   snd (run_labels x labs ops segs) = segs ++ map seg_text (snd (xrun x labs)).
 Proof.
-  induction labs as [|lab labs IH]; intros gls x s ops segs F2 FG HR HI.
+  induction labs as [|lab labs IH]; intros gls x s ops segs F2 FG HR HI H2.
   - cbn. rewrite app_nil_r. reflexivity.
   - inversion F2 as [|lab' gl labs' gls' CL F2' E1 E2]. subst gls. clear F2.
     pose proof (Forall_inv FG) as G. pose proof (Forall_inv_tail FG) as FG'. cbn beta in G.
     destruct (classify_sem x lab gl CL) as [EX [EG OP]].
-    pose proof (sem_sim x s gl HR HI G) as LP. rewrite <- EX, <- EG in LP.
+    pose proof (sem_sim x s gl HR HI H2 G (classify_nonempty lab gl CL)) as LP. rewrite <- EX, <- EG in LP.
     rewrite run_labels_cons, xrun_cons. unfold apply_label. destruct (apply_label_g x lab) as [[op x1] og]. cbn [fst snd] in LP.
-    destruct LP as [sch [nr [ne [WF [IQ [HR1 [HI1 _]]]]]]].
+    destruct LP as [sch [nr [ne [WF [IQ [HR1 [HI1 [H21 _]]]]]]]].
     destruct og as [g|].
     + destruct op as [op|].
       * rewrite (show_seg_alive x1 _ g HR1 HI1).
-        rewrite (IH gls' x1 _ (ops ++ [op]) (segs ++ [seg_text g]) F2' FG' HR1 HI1).
+        rewrite (IH gls' x1 _ (ops ++ [op]) (segs ++ [seg_text g]) F2' FG' HR1 HI1 H21).
         destruct (xrun x1 labs) as [xf gs]. cbn [snd map]. rewrite <- app_assoc. reflexivity.
       * cbn [fst snd] in OP. contradiction.
-    + destruct op; apply (IH gls' x1 _ _ _ F2' FG' HR1 HI1).
+    + destruct op; apply (IH gls' x1 _ _ _ F2' FG' HR1 HI1 H21).
 Qed.
 
 Theorem exec_refines labs gls :
   Forall2 (fun lab gl => classify lab = Some gl) labs gls -> Forall (fun gl => good cf gl = true) gls ->
   run_rel a0 gls (fst (xrun (xinit cf) labs)) (snd (xrun (xinit cf) labs)).
-Proof. intros F2 FG. apply (xrun_sim labs gls); [exact F2|exact FG|exact rel_init|apply inv0]. Qed.
+Proof. intros F2 FG. apply (xrun_sim labs gls); [exact F2|exact FG|exact rel_init|apply inv0|apply inv2_0]. Qed.
 
 End Sim.
 
@@ -1042,9 +1365,21 @@ Qed.
 Lemma prefix_firstn {A} (p r : list A) : p = firstn (length p) (p ++ r).
 Proof. rewrite firstn_app, Nat.sub_diag, firstn_all. cbn. rewrite app_nil_r. reflexivity. Qed.
 
-(* what the caller of a single command sees: the server's reply to its own request line, split as raw_command does *)
-Definition echo_result (cf : sconf) (q : request) : N * bytes :=
-  (q_id q, show_cmd_result (split_single (echo_reply cf (q_bytes q)))).
+(* what a caller sees: the server's reply to its own request, handed over as raw_command (single line) or raw_command_list
+   (a list: all frames, then the error if any) does *)
+Definition echo_result (cf : sconf) (q : request) : N * bytes := res_text cf q.
+
+Lemma exists_last_or_nil {A} (l : list A) : l = [] \/ exists l0 x, l = l0 ++ [x].
+Proof. destruct l as [|a l]; [left; reflexivity|right]. destruct (exists_last (l := a :: l)) as [l0 [x E]]; [discriminate|eauto]. Qed.
+
+Lemma ansreqs_prefix rf s : LoopSpec.Inv rf s -> exists rest, a_issued s = ansreqs s ++ rest.
+Proof.
+  intros (_ & _ & _ & _ & _ & FF & _). unfold ansreqs. destruct (a_pt s) eqn:EP;
+    try (exists (held (a_pt s) ++ a_queue s); rewrite EP in *; symmetry; exact FF).
+  destruct (exists_last_or_nil (a_sent s)) as [ES|[l0 [q0 ES]]]; rewrite ES in *.
+  - exists (held (PWait id) ++ a_queue s). cbn [removelast]. symmetry. exact FF.
+  - exists ([q0] ++ held (PWait id) ++ a_queue s). rewrite removelast_last, <- FF, <- app_assoc. reflexivity.
+Qed.
 
 Theorem exec_session cf labs gls :
   Forall2 (fun lab gl => classify lab = Some gl) labs gls -> Forall (fun gl => good cf gl = true) gls ->
@@ -1052,8 +1387,8 @@ Theorem exec_session cf labs gls :
   let segs := snd (xrun (xinit cf) labs) in
   (* C05: the simulated server never saw anything but noidle while idling *)
   s_violated (x_srv xf) = false /\
-  (* C01: the results handed to the callers, in the order they were handed out, are the echoes of a
-     prefix of the requests in issue order: each caller got the reply to its own request *)
+  (* C01: the results handed to the callers, in the order they were handed out, are the replies to a prefix of the requests
+     in issue order: each caller got the reply to its own request (all frames and the error for a list) *)
   (exists k, flat_map g_res segs = map (echo_result cf) (firstn k (flat_map issued_of gls))) /\
   (* C04: the events handed to the application are, in order, a prefix of the names the server wrote *)
   (exists ne rest, flat_map g_ev segs = map ev_text ne /\ ne ++ rest = s_reported (x_srv xf)) /\
@@ -1061,21 +1396,15 @@ Theorem exec_session cf labs gls :
   Forall (fun g => g_panic g = false) segs.
 Proof.
   intros F2 FG xf segs.
-  destruct (exec_refines cf labs gls F2 FG) as [sch [nr [ne [WF [IQ [HR [HI [ER [ED [RS [EV PN]]]]]]]]]]].
+  destruct (exec_refines cf labs gls F2 FG) as [sch [nr [ne [WF [IQ [HR [HI [H2 [ER [ED [EA [RS [EV PN]]]]]]]]]]]]].
   fold xf in HR. fold segs in RS, EV, PN. set (sf := fold_left (LoopSpec.astep (echo_reply cf)) sch a0) in *.
-  cbn [a0 a_replies a_delivered app] in ER, ED.
-  assert (H2 : Inv2 (echo_reply cf) sf) by (apply inv2_fold; [exact WF|apply inv0|apply inv2_0]).
+  cbn [a0 a_replies a_delivered app] in ER, ED. change (ansreqs a0) with (@nil request) in EA. cbn [app] in EA.
   pose proof HI as HI'. destruct HI' as (SH & VI & _ & _ & EO & FF & _).
   assert (ISS : a_issued sf = flat_map issued_of gls).
   { unfold sf. rewrite issued_fold. cbn [a0 a_issued app]. exact IQ. }
   split; [rewrite (r_violated _ _ _ HR); exact VI|]. split; [|split; [|exact PN]].
-  - assert (PRE : exists pre rest, a_replies sf = map (LoopSpecProofs.R (echo_reply cf)) pre /\ a_issued sf = pre ++ rest).
-    { unfold Inv2 in H2. destruct (a_pt sf) eqn:EP;
-        try (exists (a_sent sf), (held (a_pt sf) ++ a_queue sf); split; [exact H2|symmetry; rewrite EP in *; exact FF]).
-      destruct H2 as [pre [q [E1 [_ [E2 _]]]]]. exists pre, ([q] ++ held (PWait id) ++ a_queue sf).
-      split; [exact E2|]. rewrite <- FF, E1, <- app_assoc. reflexivity. }
-    destruct PRE as [pre [rest [E1 E2]]]. exists (length pre).
-    rewrite <- ISS, E2, <- prefix_firstn. rewrite RS, <- ER, E1, map_map. reflexivity.
+  - destruct (ansreqs_prefix _ sf HI) as [rest E]. exists (length nr).
+    rewrite <- ISS, E, EA, <- prefix_firstn. exact RS.
   - exists ne, (flat_map names_of (a_s2c sf)). split; [exact EV|].
     rewrite (r_reported _ _ _ HR), <- EO, ED. reflexivity.
 Qed.
@@ -1097,7 +1426,7 @@ Theorem loopm_segments cf labs gls t0 :
   [t0; greet_text] ++ map seg_text (snd (xrun (xinit cf) labs)).
 Proof.
   intros F2 FG. rewrite run_labels_cons, start_d0.
-  rewrite (run_labels_sim cf labs gls (xinit cf) a0 _ _ F2 FG (rel_init cf) (inv0 (echo_reply cf))). reflexivity.
+  rewrite (run_labels_sim cf labs gls (xinit cf) a0 _ _ F2 FG (rel_init cf) (inv0 (echo_reply cf)) (inv2_0 (echo_reply cf))). reflexivity.
 Qed.
 
 (* ---------- non-vacuity: a concrete session of the fragment ---------- *)
@@ -1176,3 +1505,53 @@ Example ex_other_requests :
   (* ... but not the words of the session, and not a line the server's tokenizer rejects differently from one response *)
   forallb (fun l => negb (good ex_cf (GIssue 1 l))) [b "idle"; b "noidle"; b "command_list_ok_begin"; b "a" ++ [LF] ++ b "b"] = true.
 Proof. split; vm_compute; reflexivity. Qed.
+
+(* C05 for the executable system, on the wire: what the client has written and the server has not read yet is the rest of a
+   sequence of whole requests (the server may be half-way through a command list) among which at most one is a request
+   (the others are idle / noidle), and while the simulated server waits in idle nothing but (at most one) noidle is on its way *)
+Lemma exec_wire cf labs gls : in_fragment cf labs gls ->
+  let xf := fst (xrun (xinit cf) labs) in
+  exists ws pre, concat ws = pre ++ x_c2s xf /\ Forall (write_ok cf) ws /\
+    (s_list (x_srv xf) = None -> pre = []) /\
+    (length (filter is_req ws) <= 1)%nat /\
+    (s_idle (x_srv xf) = true -> ws = [] \/ ws = [noidle_line]).
+Proof.
+  intros [F G] xf.
+  destruct (exec_refines cf labs gls F G) as [sch [nr [ne [WF [IQ [HR [HI _]]]]]]]. fold xf in HR.
+  set (sf := fold_left (LoopSpec.astep (echo_reply cf)) sch a0) in *.
+  pose proof (r_c2s _ _ _ HR) as C. unfold C2S in C.
+  assert (PRE : exists pre, concat (a_c2s sf) = pre ++ x_c2s xf /\ (s_list (x_srv xf) = None -> pre = [])).
+  { destruct (s_list (x_srv xf)) as [acc|].
+    - destruct C as [rest [todo [A [B _]]]]. exists (command_list_begin ++ flat_map (fun l => l ++ [LF]) acc).
+      split; [|discriminate]. rewrite A, B. cbn [concat]. unfold list_bytes. rewrite flat_map_app, <- !app_assoc. reflexivity.
+    - exists []. split; [rewrite C; reflexivity|reflexivity]. }
+  destruct PRE as [pre [P1 P2]].
+  exists (a_c2s sf), pre. split; [exact P1|]. split; [exact (r_writes _ _ _ HR)|]. split; [exact P2|].
+  pose proof (one_outstanding (echo_reply cf) sch WF) as OO.
+  change (arun (echo_reply cf) sch) with sf in OO.
+  split; [lia|].
+  intros SI. rewrite (r_idle _ _ _ HR) in SI.
+  exact (idle_only_noidle (echo_reply cf) sch WF SI).
+Qed.
+
+(* command lists are in the fragment too: all succeed, or one fails cleanly part-way (its frames before the error reach the caller);
+   not in it: a list closed early by one of its own lines, a command that fails after partial output *)
+Example ex_lists :
+  map (fun ls => good ex_cf (GIssueL 1 ls))
+      [[b "status"; b "stats"]; [b "status"; b "fail 5 x"; b "stats"]; [b "bin 3"; b "status"]; [b "status"];
+       [b "status"; b "command_list_end"]; [b "pfail 5 x"; b "a"]]
+  = [true; true; true; true; false; false] /\
+  classify (b "i4:status,stats") = Some (GIssueL 4 [b "status"; b "stats"]).
+Proof. split; vm_compute; reflexivity. Qed.
+
+(* a list read by the server line by line, with another request issued in between; the caller of the list gets both frames *)
+Example ex_list_session :
+  let labs := [b "i1:status,stats"; b "S*"; b "D0"; b "S"; b "S"; b "c2:ping"; b "S"; b "S"; b "D9"; b "D0"; b "S*"; b "D0"] in
+  in_fragment ex_cf labs [GIssueL 1 [b "status"; b "stats"]; GServe true; GDeliver 0; GServe false; GServe false; GIssue 2 (b "ping");
+                          GServe false; GServe false; GDeliver 9; GDeliver 0; GServe true; GDeliver 0] /\
+  flat_map g_res (snd (xrun (xinit ex_cf) labs)) =
+    [res_text ex_cf (mkReq 1 (list_bytes [b "status"; b "stats"])); res_text ex_cf (mkReq 2 (b "ping" ++ [LF]))].
+Proof.
+  cbv zeta. split; [split; [apply forall2_map; vm_compute; reflexivity|apply Forall_forall; apply forallb_forall; vm_compute; reflexivity]|].
+  vm_compute. reflexivity.
+Qed.
